@@ -156,27 +156,33 @@ Section Combined.
     Variable gt_min : GT -> nat.
     Variable gt_dmi : GT -> option A -> GT.
     Variable grep : bool -> GT -> list (option A) -> Prop.
-    Hypothesis Gok : gtree_ok ltb gt_init gt_min gt_dmi grep.
+    Variable gsize : nat -> Prop.
+    Hypothesis Gok : gtree_ok ltb gsize gt_init gt_min gt_dmi grep.
     Variable UT : Type.
     Variable ut_init : bool -> A -> list A -> UT.
     Variable ut_min : UT -> option nat.
     Variable ut_dmi : UT -> A -> UT.
     Variable urep : bool -> UT -> A -> list A -> Prop.
-    Hypothesis Uok : utree_ok ltb ut_init ut_min ut_dmi urep.
+    Variable usize : nat -> Prop.
+    Variable ukey : A -> A -> Prop.
+    Hypothesis Uok : utree_ok ltb usize ukey ut_init ut_min ut_dmi urep.
 
     Theorem merge_lt_combined_correct b (st : state) sz :
       st <> [] -> sorted_state ltb st -> sz <= total st ->
+      gsize (length st) -> usize (length st) ->
+      (forall sen, last_error (hd [] st) = Some sen -> keys_ok ukey sen st) ->
       exists o st', merge_lt_combined ltb GT gt_init gt_min gt_dmi UT ut_init ut_min ut_dmi b st sz = Some (o, st') /\
                     mrun b st o st' /\ length o = sz.
     Proof.
-      intros Hne Hs Hsz. unfold merge_lt_combined.
+      intros Hne Hs Hsz Hgs Hus Hk. unfold merge_lt_combined.
       destruct (unguarded_phase_ok b (fun n s => merge_lt_unguarded UT ut_init ut_min ut_dmi b s n) st sz Hs Hne Hsz)
         as (o1 & st1 & ovh & ms & Ep & R1 & Lo & Lms & _).
       { intros n sen l0 rest Est Esen Hnonempty Hn Hg. subst st.
-        apply (merge_lt_unguarded_correct ltb UT ut_init ut_min ut_dmi urep Uok b l0 rest n sen); auto. }
+        apply (merge_lt_unguarded_correct ltb UT ut_init ut_min ut_dmi urep usize ukey Uok b l0 rest n sen); auto. }
       rewrite Ep.
       pose proof (mrun_total ltb _ _ _ _ R1) as T1.
-      destruct (merge_lt_correct ltb GT gt_init gt_min gt_dmi grep Gok b st1 ovh) as (o2 & st2 & E & R2 & L2).
+      destruct (merge_lt_correct ltb GT gt_init gt_min gt_dmi grep gsize Gok b st1 ovh) as (o2 & st2 & E & R2 & L2).
+      { now rewrite (mrun_length ltb _ _ _ _ R1). }
       rewrite E. exists (o1 ++ o2), st2. split; [reflexivity|]. split; [eapply mrun_app; eauto|].
       rewrite app_length, L2. lia.
     Qed.
